@@ -219,6 +219,30 @@ func (u *Unit) run() {
 	for _, o := range outs {
 		u.finish(o)
 	}
+	// exits by panic out of a callee: deferred calls run, then the exceptional postconditions must hold
+	for i, snap := range u.panicSnaps {
+		ds := snap.defers
+		snap.defers = nil
+		snap.ctl = ""
+		after := []*State{snap}
+		for j := len(ds) - 1; j >= 0; j-- {
+			var nx []*State
+			for _, a := range after {
+				if a.ctl != "" {
+					continue
+				}
+				nx = append(nx, ds[j].call(a)...)
+			}
+			after = nx
+		}
+		for _, a := range after {
+			penv := &SpecEnv{names: u.entryParams, oldNames: u.entryParams, old: a.old, pkg: u.pkg, what: u.name + " onpanic"}
+			for _, c := range u.ct.OnPanic {
+				g, q := u.evalSpecBool(a, c.E, penv, false)
+				u.oblige(a, fmt.Sprintf("onpanic.%d@call(%s)", c.N, u.panicSites[i]), "onpanic", c.Text, g, q)
+			}
+		}
+	}
 	// stale loop specs
 	for n := range u.ct.Loops {
 		if !u.loopsSeen[n] {
@@ -262,7 +286,8 @@ func (u *Unit) typeSpecOf(t types.Type) *TypeSpec {
 }
 
 func (u *Unit) assumeRepInv(st *State, names map[string]*Val) {
-	if u.recvName == "" {
+	if u.recvName == "" || u.ct.Flags["helper"] != "" {
+		// a helper runs in the middle of another method: the representation invariant may be broken there
 		return
 	}
 	r := names[u.recvName]
@@ -358,7 +383,7 @@ func (u *Unit) checkExit(st *State, site int) {
 		}
 	}
 	// representation invariant of the receiver
-	if u.recvName != "" {
+	if u.recvName != "" && u.ct.Flags["helper"] == "" {
 		r := u.entryParams[u.recvName]
 		if ts := u.typeSpecOf(r.T); ts != nil {
 			renv := &SpecEnv{names: map[string]*Val{"self": r, u.recvName: r}, pkg: u.eng.pkgByPath(ts.Pkg), old: st.old, what: u.name + " repinv"}
